@@ -5,6 +5,7 @@ import (
 	"fmt"
 	"sort"
 	"strings"
+	"time"
 
 	"github.com/jsightapi/jsight-schema-core/notations/jschema"
 
@@ -398,26 +399,18 @@ func runManyRefs(c *core.Ctx) error {
 }
 
 func runC05(c *core.Ctx) error {
-	cfg := "RefPositions_quick.cfg"
-	files := map[string][]byte{}
-	if c.Thorough() {
-		cfg = "RefPositions_thorough.cfg"
-		files[cfg] = []byte("SPECIFICATION Spec\nCONSTANTS\n  MaxMentions = 3\nINVARIANTS UsedIsReached MissingOnlyIfWithheld Emit\nCHECK_DEADLOCK FALSE\n")
-	}
+	// exhaustive: every project of up to two mentions; thorough adds a TLC-simulated sample of the projects of three
+	// mentions (their state space - some 70 million - is out of reach of an exhaustive run in the time of a check)
 	var cases []rpCase
-	n := 0
-	res, err := tlc.Run(tlc.Opts{Module: "RefPositions", Cfg: cfg, Workers: 16, Files: files, Timeout: 0, HeapGB: 16, OnLine: func(l string) {
-		n++
-		if c.Thorough() && (n+int(c.Seed))%4 != 0 {
-			return
-		}
+	collect := func(l string) {
 		var cs rpCase
 		if err := json.Unmarshal([]byte(l), &cs); err != nil {
 			c.InfraError("bad case: %v", err)
 			return
 		}
 		cases = append(cases, cs)
-	}})
+	}
+	res, err := tlc.Run(tlc.Opts{Module: "RefPositions", Cfg: "RefPositions_quick.cfg", Workers: 16, Timeout: 30 * time.Minute, HeapGB: 16, OnLine: collect})
 	res.Cleanup()
 	if err != nil {
 		return err
@@ -425,7 +418,21 @@ func runC05(c *core.Ctx) error {
 	if err := res.MustOK(); err != nil {
 		return err
 	}
-	c.AddTLC(cfg, res)
+	c.AddTLC("RefPositions_quick.cfg", res)
+	if c.Thorough() {
+		cfg := "RefPositions_sim3.cfg"
+		files := map[string][]byte{cfg: []byte("SPECIFICATION Spec\nCONSTANTS\n  MaxMentions = 3\nINVARIANTS UsedIsReached MissingOnlyIfWithheld Emit\nCHECK_DEADLOCK FALSE\n")}
+		before := len(cases)
+		sim, err := tlc.Run(tlc.Opts{Module: "RefPositions", Cfg: cfg, Workers: 1, Files: files, Simulate: "num=400000", Depth: 6, Seed: c.Seed, Timeout: 30 * time.Minute, OnLine: collect})
+		sim.Cleanup()
+		if err != nil {
+			return err
+		}
+		if sim.ErrorText != "" || sim.Violated != "" {
+			return fmt.Errorf("RefPositions simulation: %s %s", sim.Violated, sim.ErrorText)
+		}
+		c.Set("simulated_three_mention_projects", len(cases)-before)
+	}
 	if len(cases) == 0 {
 		return fmt.Errorf("no cases")
 	}
